@@ -91,7 +91,7 @@ def run(path):
         for i, op in enumerate(ops):
             print('op   %3d: %s' % (i, op[:200]))
             if i < len(impl):
-                print('  impl : %s' % impl[i][:400])
+                print('  impl : %s' % (impl[i] if os.environ.get('VERIF_FULL') else impl[i][:400]))
             if model and i < len(model) and (i >= len(impl) or not core.lines_agree(impl[i], model[i])):
                 print('  model: %s' % model[i][:400])
         for p in probs:
